@@ -755,7 +755,7 @@ def impl_noninterference(op):
 # ------------------------------------------------------------------ permutation layer (C02)
 def permuted(ds, rng, rotate=True):
     """same dataset: each input's time / lead / location entries shuffled (data moved along) and the scored
-    inputs rotated. Returns (variant, map old input index -> new input index)."""
+    inputs given in a random order (any permutation). Returns (variant, map old input index -> new input index)."""
     n = len(ds.inputs) - (1 if ds.cfg.get("clim") else 0)
     ins = []
     for I in ds.inputs:
@@ -771,17 +771,41 @@ def permuted(ds, rng, rotate=True):
                     "locs": [I["locs"][i] for i in px], "fields": fields})
     # (location metadata are those of the first file: with conflicting metadata the file order is not free)
     free = meta_agree(ds) or not any(ds.cfg.get(k) is not None for k in ("lat", "lon", "elev"))
-    shift = rng.randrange(n) if (rotate and n > 1 and free) else 0
-    scored = ins[:n]
-    scored = scored[shift:] + scored[:shift]
-    mapping = {i: (i - shift) % n for i in range(n)}
+    # ANY order of the scored inputs (all n! orders are drawn, incl. "input 0 stays, the others swap" =
+    # C02_permuted_inputs and "another input comes first" = C02_any_permutation), not only the n cyclic rotations
+    order = list(range(n))                  # order[k] = old index of the input that is given at position k
+    if rotate and n > 1 and free:
+        rng.shuffle(order)
+    scored = [ins[i] for i in order]
+    mapping = {old: new for new, old in enumerate(order)}
     return DS(scored + ins[n:], dict(ds.cfg)), mapping
+
+
+def with_repeated_location(ds, rng):
+    """variant: one input lists one of its location ids twice (the second entry with the same metadata and other
+    data); verif warns and uses the first entry.  Only for streams that do not reorder entries (NoDup)."""
+    k = rng.randrange(len(ds.inputs))
+    I = ds.inputs[k]
+    j = rng.randrange(len(I["locs"]))
+    pos = rng.randrange(j + 1, len(I["locs"]) + 1)          # the copy comes after the original
+    locs = list(I["locs"])
+    locs.insert(pos, I["locs"][j])
+    fields = {}
+    for n, a in I["fields"].items():
+        a = np.array(a, float)
+        col = a[:, :, j:j + 1] + 1.0          # other data under the repeated id (NaN stays NaN)
+        fields[n] = np.concatenate([a[:, :, :pos], col, a[:, :, pos:]], axis=2)
+    ins = list(ds.inputs)
+    ins[k] = {"times": I["times"], "leads": I["leads"], "locs": locs, "fields": fields}
+    return DS(ins, dict(ds.cfg))
 
 
 def has_repeats(ds):
     for I in ds.inputs:
         if len(set(I["times"])) != len(I["times"]) or len(set(I["leads"])) != len(I["leads"]):
             return True
+        if len(set(x[0] for x in I["locs"])) != len(I["locs"]):
+            return True          # a repeated location id: the first entry is used (same warning path as times)
     return False
 
 
